@@ -1031,7 +1031,9 @@ ws_read_frame_cb(nni_ws *ws, ws_frame *frame)
 		ws->peer_closed = true;
 		if (!ws->closed) {
 			ws_close(ws, WS_CLOSE_NORMAL_CLOSE);
-		} else {
+		} else if (ws->wclose) {
+			// (only if our close is still waiting for this: it may
+			// have timed out or been cancelled already)
 			ws->wclose = false;
 			nni_aio_finish(&ws->closeaio, 0, 0);
 		}
